@@ -308,8 +308,19 @@ reg("C04", ["Props.C04_inflight_le_maxc"] + COMMON_S_THEOREMS,
     ASSUME_S + ["OS thread identity is observed by the harness (enter events), not modelled"])
 reg("C05", ["Props.C05_sequential_exclusive"] + COMMON_S_THEOREMS,
     lambda pid, tier, seed: run_S(pid, tier, seed), ASSUME_S)
+def run_S_and_G_C06(pid, tier, seed):
+    """C06 = the scheduler picks by the table (slice S, model fed the documented priorities) + the table every
+    kind of graph object carries is the documented one (slice G: whole DAG, executors, after config, composed)."""
+    cov, fs, searcher = run_S(pid, tier, seed, cp_mode="spec")
+    covg, fsg, _ = run_G(pid, tier, seed)
+    cov["priority_tables"] = {k: v for k, v in covg.items() if k not in ("samples", "rule")}
+    cov["evaluations"] += covg["evaluations"]
+    cov["rule"] += "; plus the compound-priority tables of slice G: " + covg["rule"]
+    return cov, fs + fsg, searcher
+
+
 reg("C06", ["Props.C06_best_ready", "Props.C07_cp_is_own_plus_distinct_descendants"] + COMMON_S_THEOREMS,
-    lambda pid, tier, seed: run_S(pid, tier, seed, cp_mode="spec"), ASSUME_S)
+    None, ASSUME_S)
 reg("C08", ["Props.C08_partial", "Props.C08_mixed_witness", "TM.w_run", "TM.w_blocks"] + COMMON_S_THEOREMS,
     lambda pid, tier, seed: run_S(pid, tier, seed), ASSUME_S)
 reg("C09", ["Props.C09_bound", "Props.C09_progress", "TM.M_step", "TM.rank_decreases"] + COMMON_S_THEOREMS,
@@ -487,6 +498,27 @@ def run_G(pid, tier, seed):
             prio, want_cp = prio2, want2
             blocks.append(G.graph_block("cfg%s" % k, preds, prio, debug, ["cp"]))
             queries.append(("cfg%s" % k, [("cp", dict(real=real2, where="after-config"))], sc))
+        # a DAG obtained by compose(): its table must obey the same definition (its node table has no recording order)
+        if pid in ("C06", "C07") and rng.random() < 0.4 and sc["n"] >= 2:
+            import warnings as _w
+            _w.simplefilter("ignore")
+            outs_c = rng.sample(range(sc["n"]), rng.randint(1, min(2, sc["n"])))
+            ins_c = [i for i in rng.sample(range(sc["n"]), rng.randint(0, min(2, sc["n"]))) if i not in outs_c]
+            try:
+                comp = d.compose("composed%s" % k, [d.exec_nodes["n%d" % i] for i in ins_c],
+                                 [d.exec_nodes["n%d" % i] for i in outs_c])
+            except ValueError:
+                comp = None
+            if comp is not None:
+                stats["composed_tables"] = stats.get("composed_tables", 0) + 1
+                cids, cpos, cpreds, cprio, cdebug, _ok = G.extract(comp, toposort=True)
+                cwant = spec_cp(cpreds, cprio)
+                creal = [comp.graph_ids.compound_priority[x] for x in cids]
+                if creal != cwant:
+                    bad("cp-table-wrong/composed-dag", sc, inputs=ins_c, outputs=outs_c, real=dict(zip(cids, creal)),
+                        want=dict(zip(cids, cwant)), node_table_order=list(comp.exec_nodes.keys()))
+                blocks.append(G.graph_block("cmp%s" % k, cpreds, cprio, cdebug, ["cp"]))
+                queries.append(("cmp%s" % k, [("cp", dict(real=creal, where="composed-dag"))], sc))
         if any(debug):
             stats["with_debug_nodes"] += 1
         # selections
@@ -696,10 +728,13 @@ def _check_values(pid, sc, d, ex, ids_, pos, preds, got, inst, bad, case):
         if i not in executed:
             vals.append(None)
             continue
-        args = [vals[j] for j in s["preds"]] + ([7] if s["const"] else [])
+        # an indexed use of a node that did not run yields None, like a whole use
+        args = [(vals[j][0] if (j in s.get("idx", []) and vals[j] is not None) else vals[j]) for j in s["preds"]] \
+            + ([7] if s["const"] else [])
         vals.append(("n%d" % i,) + tuple(args))
-    if list(ret) != vals:
-        bad("wrong-returned-values", sc, case=case, got=ret, want=vals)
+    want = [(v[0] if (sc["specs"][i].get("ret_idx") and v is not None) else v) for i, v in enumerate(vals)]
+    if list(ret) != want:
+        bad("wrong-returned-values", sc, case=case, got=ret, want=want)
     for i in range(n):
         c = G.COUNTS.get((inst, i), 0) - before.get((inst, i), 0)
         want = 1 if i in executed else 0
@@ -713,6 +748,7 @@ ASSUME_G = [
     "alias resolution (reference / tag / id) is modelled in the harness, not in Lean",
 ]
 
+PROPS["C06"]["run"] = run_S_and_G_C06
 reg("C07", ["Props.C07_cp_is_own_plus_distinct_descendants", "GM.C07_cp_order_independent", "GM.mem_descAll_iff",
             "GM.descAll_nodup", "Props.C07_pinned_counts_paths", "GM.C07_pinned_order_dependent"],
     run_G, ASSUME_G)
